@@ -72,7 +72,7 @@ func (h *harness) runParse(c *codec, in []byte, class string, w *worker) ([]byte
 	str := string(in)
 	var n int
 	var s1, s2 string
-	w.enter(c.name+"Parse", in)
+	w.enter(c, true, in)
 	_, st, p := common.Catch(func() { n = c.parse(dst, in); s1 = c.parseSS(str); s2 = c.parseSB(in) })
 	w.leave()
 	cs := func(extra map[string]any) map[string]any {
@@ -128,7 +128,7 @@ func (h *harness) checkFormat(c *codec, s []byte, w *worker) {
 	str := string(s)
 	var o1, o2 []byte
 	var o3, o4 string
-	w.enter(c.name+"Format", s)
+	w.enter(c, false, s)
 	_, st, p := common.Catch(func() { o1 = c.formatS(str); o2 = c.formatB(s); o3 = c.formatSS(str); o4 = c.formatSB(s) })
 	w.leave()
 	cs := func() map[string]any { return map[string]any{"codec": c.name, "input": fmt.Sprintf("%q", s)} }
@@ -177,9 +177,9 @@ func (h *harness) checkFormat(c *codec, s []byte, w *worker) {
 }
 
 func roundTrips(h *harness, cs []*codec) {
-	b := rtBounds{allBytes: 2, bLen: 4, tuple: 3}
+	b := rtBounds{allBytes: 2, bLen: 5, tuple: 3}
 	if h.r.Thorough() {
-		b = rtBounds{allBytes: 3, bLen: 5, tuple: 4}
+		b = rtBounds{allBytes: 3, bLen: 6, tuple: 4}
 	}
 	for _, x := range bAlpha {
 		inBAlpha[x] = true
@@ -207,14 +207,18 @@ func roundTrips(h *harness, cs []*codec) {
 			rec(append(buf, byte(b0)))
 		})
 		// B: boundary-alphabet strings of length allBytes+1 .. bLen
+		bl := b.bLen
+		if !c.unicode && h.r.Thorough() {
+			bl-- // the longest length only for the codecs that read their input as UTF-8
+		}
 		fb := &fam{name: "roundtrip/boundary-bytes", codec: c.name,
-			space: fmt.Sprintf("every string of length %d..%d over the %d boundary bytes % X", b.allBytes+1, b.bLen, len(bAlpha), bAlpha)}
+			space: fmt.Sprintf("every string of length %d..%d over the %d boundary bytes % X", b.allBytes+1, bl, len(bAlpha), bAlpha)}
 		h.addFam(fb)
 		k := len(bAlpha)
 		h.shards(fb, k*k, func(i int, w *worker) {
 			buf := make([]byte, b.bLen)
 			buf[0], buf[1] = bAlpha[i/k], bAlpha[i%k]
-			for l := b.allBytes + 1; l <= b.bLen; l++ {
+			for l := b.allBytes + 1; l <= bl; l++ {
 				if l < 2 {
 					continue
 				}
